@@ -95,3 +95,37 @@ fn c08_k1_appointment_layout() {
     std::mem::forget(a);
 }
 
+
+/// The serialised user id of the harness universe: 33 bytes, tag 2, then the first raw byte of the key (the real
+/// `PublicKey::serialize` is FFI even under `secp256k1_fuzz`).
+fn userid_to_vec_model(u: &crate::UserId) -> Vec<u8> {
+    let mut v = vec![0u8; 33];
+    v[0] = 2;
+    v[1] = unsafe { *(bitcoin::secp256k1::ffi::CPtr::as_c_ptr(&u.0) as *const u8) };
+    v
+}
+
+/// C08.K1c: the signed bytes of a registration receipt are `user id (33) || available_slots || subscription_start ||
+/// subscription_expiry` (big endian): the signature binds every returned field, each at its own position.
+#[kani::proof]
+#[kani::stub(crate::UserId::to_vec, userid_to_vec_model)]
+#[kani::unwind(36)]
+fn c08_k1_registration_receipt_layout() {
+    let mut raw = [0u8; 64];
+    raw[0] = kani::any();
+    let user = crate::UserId(bitcoin::secp256k1::PublicKey::from(unsafe { bitcoin::secp256k1::ffi::PublicKey::from_array_unchecked(raw) }));
+    let (slots, start, expiry): (u32, u32, u32) = (kani::any(), kani::any(), kani::any());
+    let r = RegistrationReceipt::new(user, slots, start, expiry);
+    let v = r.to_vec();
+    assert!(v.len() == 33 + 12, "C08.layout: registration receipt = user id (33) + three u32");
+    assert!(v[0] == 2 && v[1] == raw[0], "C08.layout: registration receipt starts with the user id");
+    let (s, a, e) = (slots.to_be_bytes(), start.to_be_bytes(), expiry.to_be_bytes());
+    assert!(v[33] == s[0] && v[34] == s[1] && v[35] == s[2] && v[36] == s[3], "C08.layout: then the available slots (big endian)");
+    assert!(v[37] == a[0] && v[38] == a[1] && v[39] == a[2] && v[40] == a[3], "C08.layout: then the subscription start (big endian)");
+    assert!(v[41] == e[0] && v[42] == e[1] && v[43] == e[2] && v[44] == e[3], "C08.layout: then the subscription expiry (big endian)");
+    assert!(r.available_slots() == slots && r.subscription_start() == start && r.subscription_expiry() == expiry && r.signature().is_none(),
+        "C08.layout: accessors return the fields");
+    kani::cover!(slots != start && start != expiry, "reach");
+    std::mem::forget(v);
+    std::mem::forget(r);
+}
